@@ -127,7 +127,7 @@ def raw_send(port, payload, timeout=1.0):
         pass
 
 
-def server_fuzz(ctx, nreq):
+def server_fuzz(ctx, nreq, stalled_upload=False):
     """starts toxiproxy-server built from the tree and throws a fuzzed request stream at it; after every 100 requests the API must
     answer /version within 1 s and a proxy created up front must still relay"""
     rng = C.Rng(ctx.seed).fork("C07fuzz")
@@ -195,6 +195,25 @@ def server_fuzz(ctx, nreq):
                 return "the enabled proxy 'keep' does not accept or relay (%s)" % e
             return None
 
+        if stalled_upload:
+            # a client that announces a body and then stalls: the handler decodes under the proxy's toxic lock, so unless the server bounds
+            # the time a body may take, GET /proxies and new connections through that proxy hang for as long as the client likes
+            hold = socket.create_connection(("127.0.0.1", api_port), timeout=3)
+            hold.sendall(b"POST /proxies/keep/toxics HTTP/1.1\r\nHost: x\r\nUser-Agent: verif\r\nContent-Type: application/json\r\n"
+                         b"Content-Length: 200\r\n\r\n{\"type\": \"latency\", ")
+            time.sleep(19.0)                                  # the documented bound is 15 s (api.go read_timeout)
+            st, b = http_req(api_port, "GET", "/proxies", None, timeout=3.0)
+            w2 = None if st == 200 else "GET /proxies is not answered (%s) 19 s after a client stalled in the middle of a toxic request body" % (st,)
+            w2 = w2 or healthy()
+            kinds["stalled-upload"] = 1
+            try:
+                hold.close()
+            except Exception:
+                pass
+            if w2:
+                findings.append(("stalled-upload-freezes-proxy", w2 + " (one half-sent POST /proxies/keep/toxics holds the proxy's lock)",
+                                 {"kind": "failing-input", "scenario": "POST /proxies/keep/toxics with Content-Length 200, 22 bytes sent, connection held open 19 s; "
+                                                                       "then GET /proxies and a fresh connection through proxy keep"}))
         while sent < nreq and not findings:
             q = g.any({"t1": "latency", "t2": "slicer"})
             k = rng.below(100)
@@ -301,7 +320,7 @@ def fault_scenarios(ctx, n):
 def side(ctx, proof):
     cov = {}
     deep = 1 if proof["build_ok"] else 5
-    fz, cov1 = server_fuzz(ctx, (1500 if ctx.tier == "quick" else 200000) * deep)
+    fz, cov1 = server_fuzz(ctx, (1500 if ctx.tier == "quick" else 200000) * deep, stalled_upload=(deep > 1 or ctx.tier != "quick"))
     cov.update(cov1)
     ff, cov2 = fault_scenarios(ctx, (12 if ctx.tier == "quick" else 300) * deep)
     cov.update(cov2)
